@@ -142,9 +142,7 @@ theorem mapPairError_end (st : PState) (hi : Inv s st) : wp (mapPairError s) (Po
 theorem parameter_inv (st : PState) (hi : Inv s st) : wp (parameter s) (fun _ st' => Inv s st') st := by
   unfold parameter
   wvc
-  split
-  · apply errorLine_wp; wvc; exact inv_pushErr _ hi
-  · exact hi
+  exact hi
 
 theorem parseFunctionParametersLoop_inv : ∀ (fuel : Nat) (acc : NList) (st : PState), Inv s st →
     wp (parseFunctionParametersLoop s fuel acc) (fun _ st' => Inv s st') st
@@ -173,9 +171,12 @@ theorem parseFunctionParameters_inv (fuel : Nat) (st : PState) (hi : Inv s st) :
     intro b st2 h2
     split
     · exact h2
-    · wvc; split
-      · trivial
+    · split
       · exact h2
+      · wvc
+        apply errorLine_wp
+        wvc
+        exact inv_pushErr _ h2
 
 end Grol.Parser
 
